@@ -437,6 +437,10 @@ var staleURNs = []string{
 	"whatsapp:593979333333?channel=" + goneChannel, "mailto:bar@example.com?channel=" + goneChannel,
 }
 
+// stored tel URNs that are valid but not what gocommon's Normalize makes of them (no +, or a form Normalize changes
+// again): a channel modifier must leave their paths alone
+var rawTelURNs = []string{"tel:12065551212", "tel:+43005086055", "tel:+4400858870981", "tel:250788123123", "tel:+23408031234567"}
+
 func hasChannelQuery(us []string) bool {
 	for _, s := range us {
 		if strings.Contains(s, "channel=") {
@@ -523,6 +527,18 @@ func genContact(r *hx.Rand, u *uniSpec) *contactSpec {
 	}
 	if r.Chance(1, 12) {
 		c.URNs = append(c.URNs, hx.Pick(r, []string{"mailto:Foo@Example.com", "tel:+593 979 111111", "telegram:12345#  bobby "}))
+	}
+	if r.Chance(1, 9) {
+		s := hx.Pick(r, rawTelURNs)
+		dup := false
+		for _, x := range c.URNs {
+			if urns.URN(x).Identity() == urns.URN(s).Identity() {
+				dup = true
+			}
+		}
+		if !dup {
+			c.URNs = append(c.URNs, s)
+		}
 	}
 	if r.Chance(1, 7) { // affinity to a channel the assets no longer have
 		s := hx.Pick(r, staleURNs)
